@@ -851,18 +851,6 @@ Proof.
     destruct (data_mask_at sc bkg large jk), (clip_at clip jk); reflexivity.
 Qed.
 
-Lemma maskedM_keep jk : In jk cs ->
-  (if get2 false M (fst (fst large) + fst jk) (fst (snd large) + snd jk) then 0 else aw_at W small jk)
-  = (if keep jk then aw_at W small jk else 0).
-Proof.
-  intros Hin. unfold keep. rewrite (HM' jk Hin).
-  rewrite (clip_mask_cell sc b W bkg clip large small Hov Hclip jk Hin).
-  unfold sigclip_at, mask0_at.
-  destruct (aw_at W small jk =? 0) eqn:E0.
-  - apply Z.eqb_eq in E0. rewrite E0. cbn. destruct (_ || _); reflexivity.
-  - destruct (data_mask_at sc bkg large jk), (clip_at clip jk); reflexivity.
-Qed.
-
 Lemma sum_family_eq_photometry :
   A_pixels sc b W clip <> [] ->
   osum (get_values (f_data fam) (f_mask fam))
@@ -902,11 +890,8 @@ Proof.
     { destruct (all_masked fam) eqn:E; [|reflexivity].
       apply (fam_all_masked sc b W bkg clip large small Hov Hclip) in E. contradiction. }
     unfold fam. rewrite (fam_area sc b W bkg clip large small Hov Hclip). f_equal.
-    rewrite HA, map_map.
-    rewrite (zsum_map_ext_in _ (fun jk => if keep jk then aw_at W small jk else 0) cs).
-    + rewrite zsum_filter. apply zsum_map_ext_in. intros jk _.
-      symmetry. apply (aw_shift sc b W large small Hov jk).
-    + intros jk Hin. apply maskedM_keep. exact Hin.
+    rewrite HA, map_map. apply zsum_map_ext_in. intros jk _.
+    symmetry. apply (aw_shift sc b W large small Hov jk).
 Qed.
 End SumFamily.
 
